@@ -164,7 +164,7 @@ def ensure_lean():
                 return res
             # parse: "'name' depends on axioms: [a, b]" or "'name' does not depend on any axioms"
             flat = re.sub(r"\s+", " ", out)
-            for m in re.finditer(r"'([^']+)' (does not depend on any axioms|depends on axioms: \[([^\]]*)\])", flat):
+            for m in re.finditer(r"'(\S+?)' (does not depend on any axioms|depends on axioms: \[([^\]]*)\])", flat):
                 name = m.group(1)
                 axs = [a.strip() for a in (m.group(3) or "").split(",") if a.strip()]
                 res["axioms"][name] = axs
